@@ -322,7 +322,7 @@ static void compare_with_fresh (object_t *ob, const char *why) {
 typedef struct { int kind, a, b; char name[40]; } op_t;
 enum { O_RELOADMAIN = 20, O_FAILCOMPILE = 21, O_SEFUNEDIT = 22, O_RESTART = 23, O_LOADSAVE = 0, O_LOAD, O_EDIT, O_TOUCH, O_SETREL, O_BINREL, O_DELBIN, O_SEFUN, O_DRIVERID };
 static int last_failed;        /* the previous operation was a compile that failed (leaves nothing behind in the model) */
-static op_t ops[64]; static int nops;
+static op_t ops[64]; static int nops, first_new_op, new_first, op_order[64];
 static void add_op (int kind, int a, int b, const char *fmt, ...) { va_list ap; op_t *o = &ops[nops++]; o->kind = kind; o->a = a; o->b = b; va_start (ap, fmt); vsnprintf (o->name, sizeof o->name, fmt, ap); va_end (ap); }
 static const char *shortn (int f) { static const char *n[] = { "main.c", "a.h", "b.h", "base.c", "c.h", "base2.c", "simul_efun.c", "deep.c" }; return n[f]; }
 
@@ -331,10 +331,8 @@ static void build_ops (void) {
   add_op (O_LOADSAVE, 0, 0, "load+save");
   add_op (O_LOAD, 0, 0, "load");
   add_op (O_RELOADMAIN, 0, 0, "reload(main only)");
-  add_op (O_FAILCOMPILE, 0, 0, "load(unrelated broken file) fails");
   int files[] = { F_MAIN, F_AH, F_BH, F_BASE, F_CH };
   for (int i = 0; i < 5; i++) add_op (O_EDIT, files[i], 0, "edit(%s)", shortn (files[i]));
-  add_op (O_EDIT, F_DEEP, 0, "edit(deep.c)");
   add_op (O_DELBIN, B_MAIN, 0, "delete(main.b)");
   add_op (O_DELBIN, B_BASE, 0, "delete(base.b)");
   if (ops_full) {
@@ -343,10 +341,25 @@ static void build_ops (void) {
     for (int r = 0; r < 3; r += 2) add_op (O_BINREL, B_MAIN, r, "mtime(main.b)%s", rel[r]);
     for (int r = 0; r < 3; r++) add_op (O_BINREL, B_BASE, r, "mtime(base.b)%s-than-main.b", rel[r]);
     add_op (O_SEFUN, 0, 0, "touch(simul_efun.c)+restart");
-    add_op (O_SEFUNEDIT, 0, 0, "edit(simul_efun.c), driver keeps running");
-    add_op (O_RESTART, 0, 0, "restart (stamps taken again)");
     add_op (O_DRIVERID, 0, 0, "bump(driver_id)");
   }
+  /* operations added later come last in both alphabets: the choice numbers stored in older replays keep their meaning */
+  first_new_op = nops;
+  add_op (O_FAILCOMPILE, 0, 0, "load(unrelated broken file) fails");
+  add_op (O_EDIT, F_DEEP, 0, "edit(deep.c)");
+  if (ops_full) {
+    add_op (O_SEFUNEDIT, 0, 0, "edit(simul_efun.c), driver keeps running");
+    add_op (O_RESTART, 0, 0, "restart (stamps taken again)");
+  }
+  /* --new-first=1: the order in which the alternatives are explored (matters only when a deadline ends the run): load+save, load, the later
+     additions and the stamp operations, then the rest */
+  { int k = 0, used[64] = { 0 };
+    if (new_first) {
+      op_order[k++] = 0; used[0] = 1; op_order[k++] = 1; used[1] = 1;
+      for (int i = first_new_op; i < nops; i++) { op_order[k++] = i; used[i] = 1; }
+      for (int i = 0; i < nops; i++) if (!used[i] && (ops[i].kind == O_SEFUN || ops[i].kind == O_DRIVERID || ops[i].kind == O_RELOADMAIN)) { op_order[k++] = i; used[i] = 1; }
+    }
+    for (int i = 0; i < nops; i++) if (!used[i]) op_order[k++] = i; }
 }
 
 /* "now" is later than every time stamp in the world (explicit times may have been set ahead) */
@@ -436,7 +449,7 @@ static void body (void) {
       if (bin_exists[b]) for (int f = 0; f < NSRC; f++) k += snprintf (canon + k, sizeof canon - (size_t) k, "%d.", bin_ver[b][f]);
     }
     vx_state (canon, (size_t) k);
-    int c = pad_mode ? 0 : vx_choose_free (nops, "op");
+    int c = pad_mode ? 0 : op_order[vx_choose_free (nops, "op")];
     vx_obs ("step %d: %s   (driver_id %x config_id %llx)", step, ops[c].name, vw_c17_driver_id (), vw_c17_config_id ());
     apply_op (&ops[c], step);
   }
@@ -462,6 +475,7 @@ int main (int argc, char **argv) {
   selftest = (int) vx_opt_long ("selftest", 0);
   verbose = (int) vx_opt_long ("verbose", 0);
   ops_full = (int) vx_opt_long ("ops-full", 1);
+  new_first = (int) vx_opt_long ("new-first", 0);
   snprintf (libdir, sizeof libdir, "%s/lib", hx_scratch_dir ());
   snprintf (cmd, sizeof cmd, "mkdir -p '%s' && cp -r '%s/mudlib/base/.' '%s/' && cp '%s/c18/master.c' '%s/master.c' && mkdir -p '%s/c17bin'", libdir, hx_verif_dir (), libdir, libdir, libdir, libdir);
   if (system (cmd)) { fprintf (stderr, "cannot create scratch mudlib\n"); return 2; }
